@@ -370,6 +370,9 @@ PROPS["C19"] = {
         leg("ets-park5", "c19_ets", (1, 1), {"kind": "ets_park", "n": 5, "park": 5}, what="five first accesses that are all between reading the table root and publishing their own array when the window opens (threads parked inside the user allocator): arrays of 4, 4, 8, 8 and 16 slots race for the root", weight=3.0),
         leg("ets-park3", "c19_ets", (2, 3), {"kind": "ets_park", "n": 3, "park": 3}, what="three parked first accesses"),
         leg("ets-park-pre2", "c19_ets", (2, 3), {"kind": "ets_park", "pre": 2, "n": 3, "park": 3}, what="two registered threads, three parked first accesses"),
+        leg("ets-moved-2+3", "c19_ets", (1, 2), {"pre": 2, "n": 3, "moved": 1}, what="two threads registered in a container that is then move-constructed into a new one; three new first accesses there (the table of 4 must grow at the third element)"),
+        leg("ets-moved-4+5", "c19_ets", (1, 1), {"pre": 4, "n": 5, "moved": 2}, what="four registered, container move-assigned, five new first accesses (table of 8 fills up)", weight=2.0),
+        leg("ets-moved-key", "c19_ets", (1, 2), {"kind": "ets_key", "pre": 2, "n": 3, "moved": 2}, what="ets_key_per_instance: move assignment then three new first accesses"),
         leg("ets-move", "c19_ets", (2, 3), {"kind": "swap", "mode": 1}, what="a = std::move(b): the thread-to-element mapping travels with the contents"),
         leg("ets-swap", "c19_ets", (2, 3), {"kind": "swap", "mode": 0}, what="contents exchanged by three moves"),
         leg("ets-key-move", "c19_ets", (2, 3), {"kind": "swap_key", "mode": 1}, what="ets_key_per_instance: move assignment must carry the native TLS key"),
@@ -476,6 +479,8 @@ PROPS["C04"] = {
         leg("direct", "c04_ctx", (3, 4), {"kind": "direct"}, what="cancel(R) || bind D beneath R"),
         leg("both", "c04_ctx", (2, 3), {"kind": "both"}, what="cancel(R) || bind C beneath P || bind D beneath R"),
         leg("two_cancel", "c04_ctx", (2, 3), {"kind": "two_cancel"}, what="two cancellers of R || bind C beneath P"),
+        leg("leaf_cancel", "c04_ctx", (2, 3), {"kind": "leaf_cancel"}, what="two cancellers of a leaf context (no children yet) || bind a first child beneath it: exactly one winner, the child ends up cancelled"),
+        leg("fresh_cancel", "c04_ctx", (2, 3), {"kind": "fresh_cancel"}, what="two cancellers of a context that was never bound: exactly one winner"),
         leg("mid", "c04_ctx", (2, 3), {"kind": "mid"}, what="cancel(P) || bind C beneath P || bind D beneath R (D, R stay clean)"),
         leg("destroy", "c04_ctx", (2, 3), {"kind": "destroy"}, what="cancel(R) || bind C beneath P || destroy sibling X"),
         leg("deep", "c04_ctx", (2, 3), {"kind": "deep"}, what="cancel(R) || bind C beneath P || bind E beneath C"),
@@ -539,10 +544,12 @@ def _c03():
              ("reduce_body", "parallel_reduce: the body throws", [1, 4]), ("reduce_join", "parallel_reduce: the join callback throws", [0, 1, 2]),
              ("reduce_split", "parallel_reduce: the splitting constructor throws", [1, 2]), ("foreach", "parallel_for_each with feeder", [1, 4, 9]),
              ("invoke", "parallel_invoke of three functions", [1, 6]), ("pipeline", "3-stage pipeline, 3 items, 2 tokens", [0, 1, 2, 16]),
-             ("graph", "function_node graph, wait_for_all, reset and reuse", [0, 1, 2, 4]), ("execute", "task_arena::execute of a nested one-slot arena", [1, 2])]
+             ("graph", "function_node graph, wait_for_all, reset and reuse", [0, 1, 2, 4]), ("execute", "task_arena::execute of a nested one-slot arena", [1, 2]),
+             ("same_arena", "bodies that call task_arena::execute on the arena they already run in (directly / through attach) and throw afterwards; then a parallel_for whose bodies do the same", [0, 1, 2, 4, 3])]
     for k, what, masks in progs:
         for m in masks:
             L.append(leg("%s-m%d" % (k, m), "c03_rt", (2, 3) if k not in ("graph", "pipeline", "foreach") else (1, 2), {"kind": k, "mask": m}, what="%s; throwing invocations mask %d" % (what, m)))
+    L.append(leg("same_arena-m0-pfor", "c03_rt", (2, 3), {"kind": "same_arena", "mask": 0, "mask2": 2}, what="same-arena execute inside parallel_for bodies, the second body throws"))
     return L
 PROPS["C03"] = {
     "explanation": "Real scheduler with one worker: task_group, nested groups, parallel_for, parallel_reduce (throw in body / join / splitting constructor), parallel_for_each with feeder, "
